@@ -60,6 +60,7 @@ pub struct Ctx {
     pub execs: u64,
     pub nontrivial_cases: u64,
     cur_nontrivial: bool,
+    cur_skipped: bool,
     pub tags: BTreeMap<&'static str, u64>,
     pub samples: Vec<Value>,
     pub fails: Vec<Fail>,
@@ -84,6 +85,11 @@ impl Ctx {
     #[inline]
     pub fn nontrivial(&mut self) {
         self.cur_nontrivial = true;
+    }
+    /// The current index is outside the stated space (filtered out): not counted.
+    #[inline]
+    pub fn skip(&mut self) {
+        self.cur_skipped = true;
     }
     #[inline]
     pub fn tag(&mut self, t: &'static str) {
@@ -120,14 +126,66 @@ impl Ctx {
     fn begin(&mut self, c: CaseId) {
         self.cur = Some(c);
         self.cur_nontrivial = false;
+        self.cur_skipped = false;
     }
     fn end(&mut self) {
+        if self.cur_skipped {
+            return;
+        }
         self.cases += 1;
         if self.cur_nontrivial {
             self.nontrivial_cases += 1;
         }
     }
-    fn merge(&mut self, o: Ctx) {
+    pub fn to_json(&self) -> Value {
+        json!({
+            "cases": self.cases, "execs": self.execs, "nontrivial": self.nontrivial_cases,
+            "tags": self.tags, "samples": self.samples, "fail_count": self.fail_count,
+            "known_count": self.known_count, "outcomes": self.outcomes,
+            "fails": self.fails.iter().map(|f| json!({"case": f.case.to_json(), "what": f.what, "known": f.known, "detail": f.detail})).collect::<Vec<_>>(),
+        })
+    }
+    pub fn from_json(v: &Value) -> Ctx {
+        let mut c = Ctx::default();
+        let u = |k: &str| v.get(k).and_then(Value::as_u64).unwrap_or(0);
+        c.cases = u("cases");
+        c.execs = u("execs");
+        c.nontrivial_cases = u("nontrivial");
+        c.fail_count = u("fail_count");
+        if let Some(t) = v.get("tags").and_then(Value::as_object) {
+            for (k, x) in t {
+                let key: &'static str = Box::leak(k.clone().into_boxed_str());
+                c.tags.insert(key, x.as_u64().unwrap_or(0));
+            }
+        }
+        if let Some(t) = v.get("known_count").and_then(Value::as_object) {
+            for (k, x) in t {
+                c.known_count.insert(k.clone(), x.as_u64().unwrap_or(0));
+            }
+        }
+        if let Some(t) = v.get("outcomes").and_then(Value::as_object) {
+            for (k, x) in t {
+                c.outcomes.insert(k.clone(), x.as_u64().unwrap_or(0));
+            }
+        }
+        if let Some(a) = v.get("samples").and_then(Value::as_array) {
+            c.samples = a.clone();
+        }
+        if let Some(a) = v.get("fails").and_then(Value::as_array) {
+            for f in a {
+                if let Some(case) = f.get("case").and_then(CaseId::from_json) {
+                    c.fails.push(Fail {
+                        case,
+                        what: f.get("what").and_then(Value::as_str).unwrap_or("").to_string(),
+                        known: f.get("known").and_then(Value::as_str).map(str::to_string),
+                        detail: f.get("detail").cloned().unwrap_or(Value::Null),
+                    });
+                }
+            }
+        }
+        c
+    }
+    pub fn merge(&mut self, o: Ctx) {
         self.cases += o.cases;
         self.execs += o.execs;
         self.nontrivial_cases += o.nontrivial_cases;
@@ -160,12 +218,22 @@ pub struct Space {
     pub f: CaseFn,
     /// chunk of indices a worker takes at a time
     pub chunk: u64,
+    /// run the shards of this space in child processes (one thread each)
+    /// instead of threads: cases that spawn OS threads themselves contend on
+    /// the process's address-space lock and do not scale inside one process
+    pub procs: bool,
 }
 
 impl Space {
     pub fn new(kind: &str, p: Vec<u64>, total: u64, desc: impl Into<String>, f: impl Fn(u64, &mut Ctx) + Send + Sync + 'static) -> Self {
         let chunk = (total / 2048).clamp(1, 4096);
-        Self { kind: kind.to_string(), p, total, desc: desc.into(), f: Arc::new(f), chunk }
+        Self { kind: kind.to_string(), p, total, desc: desc.into(), f: Arc::new(f), chunk, procs: false }
+    }
+    /// Marks the space as one whose cases spawn OS threads (see `procs`).
+    pub fn procs(mut self) -> Self {
+        self.procs = true;
+        self.chunk = (self.total / 512).clamp(1, 256);
+        self
     }
 }
 
@@ -282,7 +350,7 @@ extern "C" fn on_crash(sig: i32) {
 pub fn install_crash_handler(prop: &str, spaces: &[Space]) {
     let dir = format!("{VERIF_DIR}/replays/{prop}");
     let _ = std::fs::create_dir_all(&dir);
-    let path = format!("{dir}/crash.json\0");
+    let path = format!("{dir}/crash_{}.json\0", std::process::id());
     let mut table = CRASH_TABLE.lock().unwrap();
     table.clear();
     for s in spaces.iter().take(256) {
@@ -341,6 +409,9 @@ pub fn guarded<T>(f: impl FnOnce() -> T) -> Result<T, String> {
 }
 
 pub struct RunCfg {
+    /// `Some((i, k))`: this process is shard i of k of one space
+    pub shard: Option<(u64, u64)>,
+    pub only_space: Option<usize>,
     pub prop: String,
     pub tier: String,
     pub workers: usize,
@@ -390,7 +461,7 @@ pub fn run_spaces(cfg: &RunCfg, spaces: &[Space]) -> RunOut {
                         let idx = SLOTS[w].idx.load(Ordering::Relaxed);
                         let (kind, p) = kinds.get(sp).cloned().unwrap_or_default();
                         let case = CaseId { kind, p, idx };
-                        let path = write_replay(&prop, "stall", &json!({
+                        let path = write_replay(&prop, &format!("stall_{}", std::process::id()), &json!({
                             "property": prop,
                             "what": format!("case did not finish within {stall} s (non-termination or pathological slowdown of the real code)"),
                             "case": case.to_json(),
@@ -405,7 +476,52 @@ pub fn run_spaces(cfg: &RunCfg, spaces: &[Space]) -> RunOut {
     };
 
     for (si, sp) in spaces.iter().enumerate() {
+        if cfg.only_space.is_some_and(|o| o != si) {
+            continue;
+        }
         let ts = Instant::now();
+        let sctx_res = if sp.procs && workers > 1 && sp.total >= 32 && cfg.shard.is_none() {
+            run_space_in_children(cfg, si, sp, workers)
+        } else {
+            Ok(run_one_space(cfg, si, sp, if cfg.shard.is_some() { 1 } else { workers }))
+        };
+        let mut sctx = match sctx_res {
+            Ok(c) => c,
+            Err(e) => {
+                eprintln!("gv: machinery error in space {} {:?}: {e}", sp.kind, sp.p);
+                std::process::exit(2);
+            }
+        };
+        per_space.push(json!({
+            "space": sp.kind, "params": sp.p, "description": sp.desc,
+            "cases_total": sp.total, "cases_run": sctx.cases, "executions": sctx.execs,
+            "nontrivial_cases": sctx.nontrivial_cases,
+            "wall_s": (ts.elapsed().as_secs_f64() * 1000.0).round() / 1000.0,
+        }));
+        if std::env::var_os("GV_PROGRESS").is_some() {
+            eprintln!("[{:>7.1}s] {} {:?} total={} execs={} ({:.2}s)", t0.elapsed().as_secs_f64(), sp.kind, sp.p, sp.total, sctx.execs, ts.elapsed().as_secs_f64());
+        }
+        sctx.samples.truncate(if spaces.len() > 8 { 1 } else { 3 });
+        total.merge(sctx);
+        if STOP.load(Ordering::Relaxed) {
+            break;
+        }
+    }
+    wd_stop.store(true, Ordering::Relaxed);
+    let _ = wd.join();
+    let complete = !STOP.load(Ordering::Relaxed);
+    RunOut {
+        total,
+        per_space,
+        wall: t0.elapsed().as_secs_f64(),
+        complete,
+        incomplete_reason: if complete { None } else { Some("stopped early after more than 8 violations".into()) },
+    }
+}
+
+/// Runs the cases of one space on `workers` threads of this process. With
+/// `cfg.shard = Some((i, k))` only the chunks with number ≡ i (mod k).
+fn run_one_space(cfg: &RunCfg, si: usize, sp: &Space, workers: usize) -> Ctx {
         let next = AtomicU64::new(0);
         let results: Mutex<Vec<Ctx>> = Mutex::new(Vec::new());
         let nw = workers.min(sp.total.div_ceil(sp.chunk).max(1) as usize);
@@ -429,6 +545,11 @@ pub fn run_spaces(cfg: &RunCfg, spaces: &[Space]) -> RunOut {
                         let lo = next.fetch_add(sp.chunk, Ordering::Relaxed);
                         if lo >= sp.total {
                             break;
+                        }
+                        if let Some((i, k)) = cfg.shard {
+                            if (lo / sp.chunk) % k != i {
+                                continue;
+                            }
                         }
                         let hi = (lo + sp.chunk).min(sp.total);
                         for idx in lo..hi {
@@ -460,28 +581,52 @@ pub fn run_spaces(cfg: &RunCfg, spaces: &[Space]) -> RunOut {
         for c in results.into_inner().unwrap() {
             sctx.merge(c);
         }
-        per_space.push(json!({
-            "space": sp.kind, "params": sp.p, "description": sp.desc,
-            "cases_total": sp.total, "cases_run": sctx.cases, "executions": sctx.execs,
-            "nontrivial_cases": sctx.nontrivial_cases,
-            "wall_s": (ts.elapsed().as_secs_f64() * 1000.0).round() / 1000.0,
-        }));
-        sctx.samples.truncate(if spaces.len() > 8 { 1 } else { 3 });
-        total.merge(sctx);
-        if STOP.load(Ordering::Relaxed) {
-            break;
+        sctx
+}
+
+/// Runs one space in `workers` child processes (`gv shard ...`), one thread
+/// each, and merges their accumulators. A child that dies on a fatal signal
+/// inside a case has already written its replay file and VIOLATION line.
+fn run_space_in_children(cfg: &RunCfg, si: usize, sp: &Space, workers: usize) -> Result<Ctx, String> {
+    let exe = std::env::current_exe().map_err(|e| e.to_string())?;
+    let k = workers.min(sp.total.div_ceil(sp.chunk) as usize).max(1);
+    let mut kids = Vec::new();
+    for i in 0..k {
+        let child = std::process::Command::new(&exe)
+            .args(["shard", &cfg.prop, &cfg.tier, &si.to_string(), &i.to_string(), &k.to_string()])
+            .env("VERIF_SEED", cfg.seed.to_string())
+            .env_remove("GV_PROGRESS")
+            .stdout(std::process::Stdio::piped())
+            .stderr(std::process::Stdio::inherit())
+            .spawn()
+            .map_err(|e| format!("cannot spawn shard: {e}"))?;
+        kids.push(child);
+    }
+    let mut total = Ctx::default();
+    for (i, child) in kids.into_iter().enumerate() {
+        let out = child.wait_with_output().map_err(|e| e.to_string())?;
+        let text = String::from_utf8_lossy(&out.stdout).to_string();
+        let mut got = false;
+        for line in text.lines() {
+            if let Some(j) = line.strip_prefix("@@CTX ") {
+                let v: Value = serde_json::from_str(j).map_err(|e| format!("bad shard output: {e}"))?;
+                total.merge(Ctx::from_json(&v));
+                got = true;
+            } else if let Some(rest) = line.strip_prefix("VIOLATION ") {
+                // crash or stall inside a case, reported by the child itself
+                let path = rest.split("replay=").nth(1).unwrap_or("").trim().to_string();
+                let rep: Value = std::fs::read_to_string(&path).ok().and_then(|t| serde_json::from_str(&t).ok()).unwrap_or(Value::Null);
+                let case = rep.get("case").and_then(CaseId::from_json).unwrap_or(CaseId { kind: sp.kind.clone(), p: sp.p.clone(), idx: 0 });
+                total.fail_count += 1;
+                total.fails.push(Fail { case, what: rep.get("what").and_then(Value::as_str).unwrap_or("shard process died inside a case").to_string(), known: None, detail: json!({"shard": i, "child_replay": path}) });
+                got = true;
+            }
+        }
+        if !got {
+            return Err(format!("shard {i}/{k} ended with {:?} and no result", out.status));
         }
     }
-    wd_stop.store(true, Ordering::Relaxed);
-    let _ = wd.join();
-    let complete = !STOP.load(Ordering::Relaxed);
-    RunOut {
-        total,
-        per_space,
-        wall: t0.elapsed().as_secs_f64(),
-        complete,
-        incomplete_reason: if complete { None } else { Some("stopped early after more than 8 violations".into()) },
-    }
+    Ok(total)
 }
 
 pub fn write_replay(prop: &str, name: &str, v: &Value) -> String {
